@@ -3,6 +3,8 @@ package main
 import (
 	"errors"
 	"fmt"
+	bandtssmodule "github.com/bandprotocol/chain/v3/x/bandtss"
+	tssmodule "github.com/bandprotocol/chain/v3/x/tss"
 	"runtime/debug"
 	"strings"
 	"sync"
@@ -600,5 +602,55 @@ func caseHandlerBatch(run *sim.Run, b int) {
 		}
 		execHandler(run, hw, at, T, before, o, a, b == 0 && k == 3)
 		execHandler(run, hw, at, T, before, o, s, false)
+	}
+}
+
+// routerStability builds a content router the way app/keepers does (AddRoute wraps the real handlers) and checks that a
+// payload returned for one order is still the same bytes after the route has served other orders: payloads of
+// distinct requests must not share memory (a node serves simulations and queries while it executes blocks).
+func routerStability(run *sim.Run, b int) {
+	hw := getWorld(run)
+	defer putWorld(hw)
+	app := hw.w.App
+	router := tsstypes.NewContentRouter().
+		AddRoute(tsstypes.RouterKey, tssmodule.NewSignatureOrderHandler(*app.TSSKeeper)).
+		AddRoute(bandtsstypes.RouterKey, bandtssmodule.NewSignatureOrderHandler())
+	rng := sim.NewRng(uint64(run.Seed)).Derive(fmt.Sprintf("c11-router-%d", b))
+	ctx, _ := hw.w.Ctx().CacheContext()
+	type kept struct {
+		route   string
+		content tsstypes.Content
+		out     []byte
+		copy    []byte
+	}
+	var ks []kept
+	for i := 0; i < 40; i++ {
+		var c tsstypes.Content
+		if rng.Chance(3, 4) {
+			c = tsstypes.NewTextSignatureOrder([]byte(asciiWord(rng, rng.Intn(30)))) // short texts: the whole payload is at most 28 bytes
+		} else {
+			c = bandtsstypes.NewGroupTransitionSignatureOrder(rng.Bytes(33), time.Unix(int64(rng.Intn(1<<31)), 0).UTC())
+		}
+		h := router.GetRoute(c.OrderRoute())
+		out, err := h(ctx, c)
+		if err != nil {
+			continue
+		}
+		ks = append(ks, kept{c.OrderRoute(), c, out, append([]byte{}, out...)})
+	}
+	for _, k := range ks {
+		run.Eval(1)
+		if string(k.out) != string(k.copy) {
+			violate(run, "payload-changed-by-a-later-request", fmt.Sprintf("route %q: the payload returned for %v read %x when it was returned and %x after the route served other orders",
+				k.route, k.content, k.copy, k.out), map[string]any{"cases": []caseRef{{Section: "router", Case: b}}})
+			return
+		}
+		again, err := router.GetRoute(k.route)(ctx, k.content)
+		if err != nil || string(again) != string(k.copy) {
+			violate(run, "payload-not-a-function-of-the-order", fmt.Sprintf("route %q: the same order gave %x, later %x (%v)", k.route, k.copy, again, err),
+				map[string]any{"cases": []caseRef{{Section: "router", Case: b}}})
+			return
+		}
+		run.Count("router:payload-stable-after-later-requests", 1)
 	}
 }
